@@ -112,7 +112,7 @@ class FileWrapper:
 SHAPES = ["str", "bytes", "empty", "list_str", "list_bytes", "gen_str", "gen_bytes", "plainiter", "file", "file_wrapper",
           "ret_response", "raise_response", "ret_error", "raise_error", "yield_response", "nested", "raise_exc",
           "gen_fail", "custom_500", "status_attr", "no_route", "wrong_method", "unsupported", "abort", "gen_raise_response",
-          "shared_error", "shared_response"]
+          "shared_error", "shared_response", "hook_self_remove"]
 
 
 def build(app, shape, ctx):
@@ -177,6 +177,8 @@ def build(app, shape, ctx):
         def f():
             ombott.abort(s, body)
         reg(f)
+    elif shape == "hook_self_remove":
+        reg(lambda: body)
     elif shape == "shared_error":
         denied = HTTPError(s, "denied")        # one object, raised for every request (like the errors_map entries)
 
@@ -307,6 +309,8 @@ def make(shape):
         assume(0 <= k <= 2)
         assume(0 <= si < len(STATUSES))
         assume(0 <= fail <= 2)
+        if shape == "hook_self_remove":
+            assume(fail == 0)
         method = METHODS[mi]
         s = STATUSES[si]
         for kk in (0, 1, 2):          # make the count concrete per path ([""] * symbolic k builds a symbolic-length list)
@@ -331,10 +335,23 @@ def make(shape):
                 if failing:
                     raise RuntimeError("hook " + name)
             return f
-        app.add_hook("before_request", hook("b1", fail == 1))
-        app.add_hook("before_request", hook("b2", fail == 2))
-        app.add_hook("after_request", hook("a1", False))
-        app.add_hook("after_request", hook("a2", False))
+        if shape == "hook_self_remove":
+            # the "run once, then unregister yourself" idiom: every hook registered at the start of the request still runs
+            # exactly once on this request
+            def once(kind, name):
+                def f():
+                    log.append(name)
+                    app.remove_hook(kind, f)
+                return f
+            app.add_hook("before_request", once("before_request", "b1"))
+            app.add_hook("before_request", hook("b2", False))
+            app.add_hook("after_request", hook("a1", False))
+            app.add_hook("after_request", once("after_request", "a2"))
+        else:
+            app.add_hook("before_request", hook("b1", fail == 1))
+            app.add_hook("before_request", hook("b2", fail == 2))
+            app.add_hook("after_request", hook("a1", False))
+            app.add_hook("after_request", hook("a2", False))
         iterable = build(app, shape, ctx)
         # shapes that hand the SAME response object to the framework on every request are served twice with
         # URLs of different length (the error page shows the URL): the second response must be well-formed too
